@@ -263,10 +263,12 @@ def rejections():
     yield "duplicate index", dup_index
 
 
-def main_pairs(only=None):
+def main_pairs(only=None, skip=()):
     fails = []
     for tag, table, f in pairs():
         if only and only not in tag:
+            continue
+        if any(sk in tag for sk in skip):
             continue
         s, b = base_net(), base_net()
         try:
